@@ -8,8 +8,10 @@ Inductive tkind :=
 | TUntyped                 (* no type annotation *)
 | TFound                   (* get_structure_hook(T) returns a hook that handles the value *)
 | TNotFound                (* get_structure_hook(T) raises StructureHandlerNotFoundError *)
-| TLazyNotFound.           (* a hook is found, but calling it raises StructureHandlerNotFoundError
+| TLazyNotFound            (* a hook is found, but calling it raises StructureHandlerNotFoundError
                               (a container hook that dispatches on its element type when called) *)
+| TRecursive.              (* T is a class whose hook is being generated right now (a reference cycle):
+                              get_structure_hook raises RecursionError, answered by late binding *)
 
 (* the value the attribute ends up with, symbolically *)
 Inductive fval :=
@@ -28,14 +30,14 @@ Definition gen_field (has_conv prefer : bool) (t : tkind) : fval :=
      else if has_conv then
        match t with
        | TUntyped => VRaw            (* falls to `c.structure` on type None: identity *)
-       | TFound => VHook
+       | TFound | TRecursive => VHook
        | TNotFound => VRaw
        | TLazyNotFound => VFail      (* the hook was found; its failure at call time is not caught *)
        end
      else
        match t with
        | TUntyped => VRaw
-       | TFound => VHook
+       | TFound | TRecursive => VHook
        | TNotFound => VFail          (* generation fails *)
        | TLazyNotFound => VFail
        end).
@@ -47,7 +49,7 @@ Definition interp_field (has_conv prefer : bool) (t : tkind) : fval :=
      else
        match t with
        | TUntyped => VRaw
-       | TFound => VHook
+       | TFound | TRecursive => VHook
        | TNotFound | TLazyNotFound => if has_conv then VRaw else VFail   (* catches the error raised by the call too *)
        end).
 
@@ -60,7 +62,7 @@ Definition doc_field (has_conv prefer : bool) (hook_exists : option bool) : fval
   else match hook_exists with None => VRaw | Some true => VHook | Some false => VFail end.
 
 Definition hook_exists_of (t : tkind) : option bool :=
-  match t with TUntyped => None | TFound => Some true | TNotFound | TLazyNotFound => Some false end.
+  match t with TUntyped => None | TFound | TRecursive => Some true | TNotFound | TLazyNotFound => Some false end.
 
 Definition fval_eqb (a b : fval) : bool :=
   match a, b with
